@@ -15,6 +15,29 @@ func (x *Explorer) enter(fr *frame, from, b *ssa.BasicBlock) {
 	li := x.loopsOf(fr.fn)
 	n := fr.visits[b]
 	lm := li.heads[b]
+	if lm != nil && x.Opts.OnBackEdge != nil && from != nil && lm.body[from] && n >= 1 {
+		var phis []*ssa.Phi
+		var oldT, newT []*Term
+		for _, in := range b.Instrs {
+			phi, ok := in.(*ssa.Phi)
+			if !ok {
+				break
+			}
+			idx := -1
+			for k, p := range b.Preds {
+				if p == from {
+					idx = k
+				}
+			}
+			if idx < 0 {
+				continue
+			}
+			phis = append(phis, phi)
+			oldT = append(oldT, x.eval(fr, phi))
+			newT = append(newT, x.eval(fr, phi.Edges[idx]))
+		}
+		x.Opts.OnBackEdge(x, fr.fn, b, phis, oldT, newT, func(v ssa.Value) *Term { return x.eval(fr, v) })
+	}
 	if lm != nil {
 		max := 2
 		if x.Opts.Unroll >= 1 {
@@ -53,6 +76,13 @@ func (x *Explorer) enter(fr *frame, from, b *ssa.BasicBlock) {
 		var t *Term
 		if general || from == nil {
 			t = x.T.mk(Term{Kind: KFresh, Ref: ssa.Value(phi), N: x.next(), Type: phi.Type()})
+			if general && from != nil && x.Opts.OnGeneralise != nil {
+				for k, p := range b.Preds {
+					if p == from {
+						x.Opts.OnGeneralise(x, fr.fn, b, phi, x.eval(fr, phi.Edges[k]), t)
+					}
+				}
+			}
 		} else {
 			idx := -1
 			for k, p := range b.Preds {
